@@ -1,5 +1,6 @@
 import HioModel.Basic.Sexp
 import HioModel.Sched.Model
+import HioModel.Sched.TimeModel
 /-! Driver: `(run (tock b) (start b) (limit -|b) (fuel n) (pool (spec..)) (specs (spec..)))`
 → `((trace (id kind tymebits [ids])..) (late 0) (flags (id t|f)..) (done b) (tyme bits) (raised -|err) (doers (ids)))`.
 Floats travel as IEEE-754 bit patterns. -/
@@ -88,10 +89,45 @@ def runReq (fs : List Sexp) : Option Sexp := do
     tag "raised" [sym (if f.fuelOut then "fuelOut" else if f.raised then "err" else "-")],
     tag "doers" [.list (f.doers.map ofNat)]])
 
+/-! ### request heads added for C03/C04/C30 (see notes/SchedT.md); `run` above is unchanged -/
+
+/-- reply for one finished run of `specs` (same layout as `runReq`) -/
+def finalS (f : Final Float) (pool specs : List (Spec Float)) : Sexp :=
+  let ids := sortNat (Spec.idsL specs ++ Spec.idsL pool)
+  .list [
+    tag "trace" [.list ((visible f.evs).map evS)],
+    tag "late" [ofNat 0],
+    tag "flags" [.list (ids.map fun i => .list [ofNat i, ofBool (finalFlag f.evs i)])],
+    tag "done" [ofBool f.done],
+    tag "tyme" [ofFl f.tyme],
+    tag "raised" [sym (if f.fuelOut then "fuelOut" else if f.raised then "err" else "-")],
+    tag "doers" [.list (f.doers.map ofNat)]]
+
+/-- `(flatpair ..)`: the program as given and with every transparent group spliced away (`Spec.flatL`);
+`(doado ..)`: `doistDo` and `doistAdo` (asyncio loop, no other tasks) on the same program -/
+def pairReq (ado : Bool) (fs : List Sexp) : Option Sexp := do
+  let tock ← fl? (← field1 "tock" fs)
+  let start ← fl? (← field1 "start" fs)
+  let lim ← field1 "limit" fs
+  let limit ← (match lim with | .atom "-" => some none | s => (fl? s).map some)
+  let fuel ← nat? (← field1 "fuel" fs)
+  let pool ← (← list? (← field1 "pool" fs)).mapM spec?
+  let specs ← (← list? (← field1 "specs" fs)).mapM spec?
+  let a := doistDo pool tock start limit fuel specs
+  if ado then
+    let b := (doistAdo pool tock start limit fuel specs (fun _ (u : Unit) => u) ()).1
+    some (.list [finalS a pool specs, finalS b pool specs])
+  else
+    let flat := Spec.flatL specs
+    let b := doistDo pool tock start limit fuel flat
+    some (.list [finalS a pool specs, finalS b pool flat])
+
 def handle : Sexp → Sexp
   | .list (.atom "run" :: fs) => match runReq fs with
     | some o => o
     | none => sym "bad-request"
+  | .list (.atom "flatpair" :: fs) => (pairReq false fs).getD (sym "bad-request")
+  | .list (.atom "doado" :: fs) => (pairReq true fs).getD (sym "bad-request")
   | _ => sym "bad-request"
 
 def main : IO Unit := serve handle
